@@ -358,6 +358,8 @@ def RunTask(task):
     return RunManyCase(task['case'])
   if kind == 'stub':
     return RunStubCase(task['case'])
+  if kind == 'hand':
+    return [HandLine(item) for item in task['items']]
   raise ValueError(kind)
 
 
@@ -467,7 +469,8 @@ def RunStubCase(case):
 # ----------------------------------------------------------------------------
 # generated Logica programs (SQLite)
 
-def GenProgram(rng, ident, origin='compiled', multi=False, orders=3):
+def GenProgram(rng, ident, origin='compiled', multi=False, orders=3,
+               max_blocks=3, data=None, two_iter=False):
   """A program with @Ground intermediates and deep / iterative recursion.
 
   multi=True forces the shape "a requested predicate reads >= 2 @Ground-ed
@@ -490,14 +493,15 @@ def GenProgram(rng, ident, origin='compiled', multi=False, orders=3):
     meta['ground'].append('E')
   lines.append('S(1); S(%d);' % rng.randint(2, nodes))
   pre_sql = []
-  use_data = rng.random() < 0.4
+  use_data = (rng.random() < 0.4) if data is None else data
   if use_data:
     pre_sql.append('CREATE TABLE T0 AS SELECT 1 AS col0 UNION ALL SELECT 2 '
                    'UNION ALL SELECT 3 UNION ALL SELECT 4')
     meta['data'] = True
 
   def Depth():
-    kind = rng.choice(['deep', 'deep', 'iter', 'iter', 'plain'])
+    kind = rng.choice(['deep', 'deep', 'iter', 'iter'] +
+                      ([] if two_iter else ['plain']))
     if kind == 'deep':
       return ', %d' % rng.choice([21, 22, 25, 30, 33]), kind
     if kind == 'iter':
@@ -505,7 +509,9 @@ def GenProgram(rng, ident, origin='compiled', multi=False, orders=3):
     return ', %d' % rng.choice([3, 6]), kind
 
   sources = {}          # predicate -> arity usable by consumers
-  blocks = rng.sample(['tc', 'reach', 'evod', 'num'], rng.randint(1, 3))
+  blocks = rng.sample(['tc', 'reach', 'evod', 'num'],
+                      max(2, rng.randint(1, max_blocks)) if two_iter
+                      else rng.randint(1, max_blocks))
   for b in blocks:
     d, kind = Depth()
     if b == 'tc':
@@ -554,7 +560,10 @@ def GenProgram(rng, ident, origin='compiled', multi=False, orders=3):
     body = [Atom(rng.choice(pool), 'x')]
     if rng.random() < 0.5:
       body.append(Atom(rng.choice(pool), 'x'))
-    lines.append('%s(x) distinct :- %s;' % (name, ', '.join(body)))
+    # a distinct constant keeps the SQL of two statements from coinciding
+    # (recorded runner calls are mapped back to statements by their text)
+    lines.append('%s(x) distinct :- %s, x != %d;' % (name, ', '.join(body),
+                                                     100 + k))
     if rng.random() < 0.8 or (multi and k < 2):
       lines.append('@Ground(%s);' % name)
       meta['ground'].append(name)
@@ -568,6 +577,8 @@ def GenProgram(rng, ident, origin='compiled', multi=False, orders=3):
     body = [Atom(rng.choice(pool), 'x'), Atom(rng.choice(inter), 'x')]
     if multi and k == 0:
       body = [Atom('G1', 'x'), Atom('G2', 'x')] + body[:1]
+    if two_iter and k == 0:      # one request needs both iterations
+      body = [Atom(r[0], 'x') for r in meta['recursive'][:2]] + body[1:]
     if rng.random() < 0.5:
       body.append('x > %d' % rng.randint(0, 2))
     lines.append('%s(x, c) distinct :- %s, c = %d;' % (name, ', '.join(body),
